@@ -59,6 +59,7 @@ type probeObs struct {
 	GK       [2]string      `json:"gk"`
 	Gen      int64          `json:"gen"`
 	CEL      []probeCEL     `json:"cel"`
+	Panics   []string       `json:"panics,omitempty"` // Probe panicked (recovered by the harness)
 }
 
 // Reason enums. The table mirrors the fixed message formats of pkg/probing:
@@ -159,9 +160,12 @@ func decodeObject(raw json.RawMessage) (*unstructured.Unstructured, error) {
 	return &unstructured.Unstructured{Object: m}, nil
 }
 
-// celOracle runs every distinct CEL rule of the probe list alone, through the real NewCELProbe,
-// with a message of its own (so that the oracle does not depend on the messages of the scenario).
-func celOracle(probes []corev1alpha1.ObjectSetProbe, run func(p probing.Prober) (bool, []string)) []probeCEL {
+// celOracle: for every distinct CEL rule of the probe list, what the real NewCELProbe says about the rule
+// (compile class) and what the compiled PROGRAM returns on the object. The program is evaluated directly
+// (CELProbe.Program.Eval, cel-go), not through CELProbe.Probe, so that the oracle is independent of how the
+// probe turns an evaluation result into (success, message): true | false | error (evaluation failed) |
+// non-bool (a value that is not a boolean: the rule should not have been accepted).
+func celOracle(probes []corev1alpha1.ObjectSetProbe, obj *unstructured.Unstructured) []probeCEL {
 	out := []probeCEL{}
 	seen := map[string]bool{}
 	for _, osp := range probes {
@@ -171,21 +175,22 @@ func celOracle(probes []corev1alpha1.ObjectSetProbe, run func(p probing.Prober) 
 			}
 			seen[p.CEL.Rule] = true
 			c := probeCEL{Rule: p.CEL.Rule, Outcome: "none"}
-			const oracleMsg = "\x00verif-oracle"
-			cp, err := probing.NewCELProbe(p.CEL.Rule, oracleMsg)
+			cp, err := probing.NewCELProbe(p.CEL.Rule, "verif-oracle")
 			switch {
 			case err == nil:
 				c.Class = "ok"
-				ok, msgs := run(cp)
+				val, _, err := cp.Program.Eval(map[string]any{"self": obj.DeepCopy().Object})
 				switch {
-				case ok && len(msgs) == 0:
-					c.Outcome = "true"
-				case !ok && len(msgs) == 1 && msgs[0] == oracleMsg:
-					c.Outcome = "false"
-				case !ok && len(msgs) == 1 && strings.HasPrefix(msgs[0], "CEL program failed: "):
+				case err != nil:
 					c.Outcome = "error"
 				default:
-					c.Outcome = "unknown"
+					if b, ok := val.Value().(bool); !ok {
+						c.Outcome = "non-bool"
+					} else if b {
+						c.Outcome = "true"
+					} else {
+						c.Outcome = "false"
+					}
 				}
 			case errors.Is(err, probing.ErrCELInvalidEvaluationType):
 				c.Class = "not-bool"
@@ -196,6 +201,17 @@ func celOracle(probes []corev1alpha1.ObjectSetProbe, run func(p probing.Prober) 
 		}
 	}
 	return out
+}
+
+// safeProbe runs a prober and turns a panic into an observation.
+func safeProbe(p probing.Prober, obj *unstructured.Unstructured) (ok bool, msgs []string, panicked string) {
+	defer func() {
+		if r := recover(); r != nil {
+			ok, msgs, panicked = false, nil, fmt.Sprint(r)
+		}
+	}()
+	ok, msgs = p.Probe(obj)
+	return ok, msgs, ""
 }
 
 func init() {
@@ -216,14 +232,17 @@ func init() {
 
 		run := func(p probing.Prober) (bool, []string) {
 			holder := orig.DeepCopy()
-			ok, msgs := p.Probe(holder)
+			ok, msgs, panicked := safeProbe(p, holder)
+			if panicked != "" {
+				obs.Panics = append(obs.Panics, panicked)
+			}
 			if !reflect.DeepEqual(holder.Object, orig.Object) {
 				obs.Pure = false
 			}
 			return ok, msgs
 		}
 
-		obs.CEL = celOracle(sc.Probes, run)
+		obs.CEL = celOracle(sc.Probes, orig)
 
 		// every ObjectSetProbe alone: the body of the loop of Parse (parse.go:19-33) through the
 		// exported ParseProbes and ParseSelector, i.e. without the And around the whole list.
